@@ -146,6 +146,8 @@ pub fn exec_with<C: CellType, X: Executable<C>>(ex: &X, mode: Mode, env: &Env) -
         }
     };
     drop(ctx);
+    // fault/guard modes of the allocator only cover the execution itself
+    crate::alloc::MODE.store(0, std::sync::atomic::Ordering::Relaxed);
     format!("{} {} {}", status, if fin { 1 } else { 0 }, trace_string(&log))
 }
 
@@ -369,4 +371,42 @@ pub fn runfail(f: &[&str]) -> String {
     let src = String::from_utf8(hex_bytes(f[4])).expect("utf8 source");
     let env = Env::parse(f[5]);
     in_child(3000, move || by_width!(w, runfail_w, &backend, level, kth, &src, &env))
+}
+
+fn rung_w<C: CellType>(backend: &str, level: u32, mode: Mode, guard: usize, src: &str, env: &Env) -> String {
+    use std::sync::atomic::Ordering;
+    macro_rules! go {
+        ($t:ty) => {
+            match <$t>::create(src, level) {
+                Ok(ex) => {
+                    crate::alloc::MODE.store(guard, Ordering::Relaxed);
+                    let r = exec_with(&ex, mode, env);
+                    crate::alloc::MODE.store(0, Ordering::Relaxed);
+                    format!("{} guarded={}", r, crate::alloc::GUARDED_ALLOCS.load(Ordering::Relaxed))
+                }
+                Err(e) => format!("create-{}", err_string(&e)),
+            }
+        };
+    }
+    match backend {
+        "inplace" => go!(InplaceInterpreter<C>),
+        "ir" => go!(IrInterpreter<C>),
+        "bc" => go!(BcInterpreter<C>),
+        "jit" => go!(BaseJitCompiler<C>),
+        b => format!("ERR backend {b}"),
+    }
+}
+
+/// rung|backend|w|level|mode|budget-or-margin|guard(2=left,3=right)|timeout|src-hex|env :
+/// every allocation made during execution is flush against a PROT_NONE page
+pub fn rung(f: &[&str]) -> String {
+    let backend = f[0].to_string();
+    let w: u32 = f[1].parse().unwrap();
+    let level: u32 = f[2].parse().unwrap();
+    let mode = parse_mode(f[3], f[4]);
+    let guard: usize = f[5].parse().unwrap();
+    let timeout: u64 = f[6].parse().unwrap();
+    let src = String::from_utf8(hex_bytes(f[7])).expect("utf8 source");
+    let env = Env::parse(f[8]);
+    in_child(timeout, move || by_width!(w, rung_w, &backend, level, mode, guard, &src, &env))
 }
